@@ -71,6 +71,14 @@ def make_leaf(tdgl, k, flavour="exact"):
         return 2
     if k == "F":
         return 0.5
+    if flavour == "main" or flavour.startswith("module:"):
+        # the same leaves, wrapping plain named functions p2 / p3 / pt of the driver script's __main__
+        # (or of a named module that holds the same definitions)
+        import importlib
+        import sys
+
+        m = sys.modules["__main__"] if flavour == "main" else importlib.import_module(flavour.split(":", 1)[1])
+        return {"P2": lambda: P(m.p2, a=2), "P3": lambda: P(m.p3, b=1), "PT": lambda: P(m.pt, time_dependent=True, c=1)}[k]()
     if flavour == "exact":
         if k == "P2":
             return P(p2, a=2)
